@@ -2,6 +2,8 @@ import Scion.Model.Net
 import Scion.Proofs.Net
 import Scion.Proofs.NetScmp
 import Scion.Proofs.NetScmp2
+import Scion.Proofs.NetScmpPeer
+import Scion.Proofs.NetAlert
 /-!
 # C10 — SCMP replies and traceroute answers travel back to the sender
 
@@ -163,8 +165,91 @@ theorem scmp_peer_segment_intermediate (seg ts : Nat) (done : List Hop) (h t0 : 
         (t0 :: todo).reverse, h, done.reverse, []⟩ : Cursor).incPath := by
   simp [scmpPrepare, reverseCursor, determinePeer, flipInfo, Cursor.isXover, egUpd]
 
-/-- the peering case of `scmp_reply_delivered`, stated (not proved: the peering-hop router step is
-    not yet part of the run lemmas; tied and checked by the engine on every run): on a peering path
+/-- **C10 on peering paths, SCMP errors of the ingress stage at an AS of the first segment other
+    than the peering AS** (one border router per AS — hence `_partial`).  The first segment carries
+    the Peer flag; forwarding order `e0` (source), `m1`, `ek`; at least one more hop field (`t0`,
+    at the latest the peering hop) follows; `sD` is the second segment.  The reply is built with
+    the SegID re-adjusted under the guard `determinePeer` (see
+    `scmp_peer_segment_intermediate`), is accepted by every AS on the way back — which now runs on
+    the *second* segment of the reversed path, behind `revSeg sD` — and is delivered in the source
+    AS.  Either direction `cd` (the way there of a peering path has `cd = false`; a reversed
+    peering path, as replies use it, `cd = true`). -/
+theorem scmp_peer_error_reply_delivered_partial (mac : MacFn) (net : Net) (now src dst : Nat)
+    (core cd : Bool) (ts : Nat) (hUp : AllUp net) (hSR : SingleRouter net)
+    (seg0 : Nat) (e0 : ASE) (m1 : List ASE) (ek : ASE) (h' : Hop) (t k : Nat) (t0 : Hop)
+    (tlh : List Hop) (sD : Seg)
+    (hFL : FL mac net core cd ts seg0 (e0 :: (m1 ++ [ek])))
+    (hsrc : src = e0.ia) (hsd : src ≠ dst)
+    (hnd : ((e0 :: (m1 ++ [ek])).map (·.ia)).Nodup)
+    (hmidd : ∀ e ∈ m1, e.ia ≠ dst)
+    (hexpU : ∀ e ∈ e0 :: m1, expired now ts e.hop.exp = false)
+    (hstop : routerStep mac (cfgOf net ek.ia) now (.ext (inF cd ek)) (ek.ia == src) (ek.ia == dst)
+        ⟨[], ⟨cd, true, Scion.SegID.extractBeta (Scion.SegID.updateSegID seg0 (pfx e0.hop.mac)) (sig m1), ts⟩,
+          hopOf e0.hop :: m1.map (fun e => hopOf e.hop), h', t0 :: tlh, [sD]⟩ =
+      .slow t k 0 ⟨[], ⟨cd, true, usedSeg cd (Scion.SegID.extractBeta
+            (Scion.SegID.updateSegID seg0 (pfx e0.hop.mac)) (sig m1)) h', ts⟩,
+          hopOf e0.hop :: m1.map (fun e => hopOf e.hop), h', t0 :: tlh, [sD]⟩) (fuel : Nat) :
+    ∃ tr c1 rc trr cr,
+      run mac net now src dst (fuel + 2 + m1.length) src 0 .host
+        ⟨[], ⟨cd, true, usedAt cd seg0 e0, ts⟩, [], hopOf e0.hop,
+          (m1.map fun e => hopOf e.hop) ++ h' :: t0 :: tlh, [sD]⟩ [] =
+        .stopped ek.ia 0 (.ext (inF cd ek)) (.slow t k 0 c1) tr ∧
+      replyOf (.slow t k 0 c1) (.ext (inF cd ek)) = some rc ∧
+      followReply mac net now src ek.ia 0 (.ext (inF cd ek)) rc = .delivered src trr cr :=
+  peer_slow_reply_run mac net now src dst core cd ts hUp hSR seg0 e0 m1 ek h' t k t0 tlh sD hFL hsrc hsd
+    hnd hmidd hexpU hstop fuel
+
+/-- instance: an expired hop field at such an AS (`expired_step_pr` discharges `hstop`) — the
+    shape of `seeded/mut1-C10` -/
+theorem scmp_peer_expired_reply_delivered_partial (mac : MacFn) (net : Net) (now src dst : Nat)
+    (core cd : Bool) (ts : Nat) (hUp : AllUp net) (hSR : SingleRouter net)
+    (seg0 : Nat) (e0 : ASE) (m1 : List ASE) (ek : ASE) (exp' : Nat) (t0 : Hop)
+    (tlh : List Hop) (sD : Seg)
+    (hFL : FL mac net core cd ts seg0 (e0 :: (m1 ++ [ek])))
+    (hsrc : src = e0.ia) (hsd : src ≠ dst)
+    (hnd : ((e0 :: (m1 ++ [ek])).map (·.ia)).Nodup)
+    (hmidd : ∀ e ∈ m1, e.ia ≠ dst)
+    (hexpU : ∀ e ∈ e0 :: m1, expired now ts e.hop.exp = false)
+    (hexp' : expired now ts exp' = true) (fuel : Nat) :
+    ∃ tr c1 rc trr cr,
+      run mac net now src dst (fuel + 2 + m1.length) src 0 .host
+        ⟨[], ⟨cd, true, usedAt cd seg0 e0, ts⟩, [], hopOf e0.hop,
+          (m1.map fun e => hopOf e.hop) ++ { hopOf ek.hop with exp := exp' } :: t0 :: tlh, [sD]⟩ [] =
+        .stopped ek.ia 0 (.ext (inF cd ek)) (.slow 4 52 0 c1) tr ∧
+      replyOf (.slow 4 52 0 c1) (.ext (inF cd ek)) = some rc ∧
+      followReply mac net now src ek.ia 0 (.ext (inF cd ek)) rc = .delivered src trr cr :=
+  peer_expired_reply_run mac net now src dst core cd ts hUp hSR seg0 e0 m1 ek exp' t0 tlh sD hFL hsrc hsd
+    hnd hmidd hexpU hexp' fuel
+
+/-- **Traceroute ownership on the model** (router level, no restriction on paths or the number of
+    routers per AS).  A router consumes a router-alert flag — and hence is the one that answers the
+    traceroute request — only
+    * on the ingress side, when the packet came in over one of *its own* external links
+      (`arr = .ext i`, `i ≠ 0`); a packet handed over by a sibling router or a local host never
+      triggers the ingress alert;
+    * on the egress side, when the egress interface of the hop is owned by *this* router.
+    So of two sibling routers of an AS exactly the owner of the interface in question answers. -/
+theorem alert_answered_by_owner (mac : MacFn) (cfg : RCfg) (now : Nat) (arr : Arrival) (sl dl : Bool)
+    (c : Cursor) (b : Bool) (e : Nat) (c' : Cursor)
+    (h : routerStep mac cfg now arr sl dl c = .alert b e c') :
+    (b = true ∧ e = 0 ∧ ∃ i, arr = .ext i ∧ i ≠ 0) ∨
+    (b = false ∧ ∃ eg, egressIface cfg e = some eg ∧ eg.owner = cfg.self) :=
+  Scion.Net.alert_answered_by_owner mac cfg now arr sl dl c b e c' h
+
+/-- the ingress alert is raised only after the hop field's MAC verified, on the packet as updated
+    at ingress, with exactly the flag of the ingress side cleared -/
+theorem ingress_alert_after_mac (mac : MacFn) (cfg : RCfg) (now : Nat) (arr : Arrival) (sl dl : Bool)
+    (c1 : Cursor) (p b : Bool) (e : Nat) (c' : Cursor)
+    (h : stChecks mac cfg now arr sl dl c1 p = .error (.alert b e c')) :
+    b = true ∧ e = 0 ∧ arr.ifid ≠ 0 ∧ c' = clearInAlert c1 ∧
+      (if c1.info.consDir then c1.cur.inAlert else c1.cur.egAlert) = true ∧
+      macOk mac cfg.key c1.info c1.cur = true :=
+  stChecks_alert mac cfg now arr sl dl c1 p b e c' h
+
+/-- the peering case of `C10_full`, stated.  Proved so far: errors at the ASes of the first segment
+    other than the peering AS (`scmp_peer_error_reply_delivered_partial`).  Not proved: errors at
+    the two peering ASes and in the second segment (the reply then crosses the peering link
+    backwards); tied and checked by the engine on every run.  On a peering path
     (up segment, peering link, down segment — each with any number of hops) with an expired hop at
     any AS other than the source, the SCMP answer is delivered in the source AS. -/
 def scmp_reply_delivered_peering : Prop :=
